@@ -81,6 +81,11 @@ type kindSpec struct {
 	buffer  bool
 	maxBuf  int64
 	reopens bool // offers the Close+reopen operation
+	// lite kinds get only a shallow history tree (every failing history of the
+	// sqlite-backed buffer costs several hang timeouts).
+	lite bool
+	// noFlush: no explicit Flush operation offered (automatic flushes only).
+	noFlush bool
 }
 
 const hugeBuf = 1 << 40
@@ -96,7 +101,11 @@ func kinds() []*kindSpec {
 		{name: "buffer-mem-leveldb-1", class: clBF, typ: "leveldb", buffer: true, maxBuf: 1, reopens: true},
 		{name: "buffer-mem-leveldb-inf", class: clBF, typ: "leveldb", buffer: true, maxBuf: hugeBuf, reopens: true},
 		{name: "buffer-mem-kvfile-inf", class: clBF, typ: "kv", buffer: true, maxBuf: hugeBuf, reopens: true},
-		{name: "buffer-mem-sqlite-inf", class: clBF, typ: "sqlite", buffer: true, maxBuf: hugeBuf, reopens: true},
+		// Flush of an empty buffer leaks the sqlite gate (see NOTES.md Findings): the
+		// -inf kind shows that on a shallow tree; the -1 kind explores the merge
+		// iterator over a sqlite backing through automatic flushes only.
+		{name: "buffer-mem-sqlite-inf", class: clBF, typ: "sqlite", buffer: true, maxBuf: hugeBuf, reopens: true, lite: true},
+		{name: "buffer-mem-sqlite-1", class: clBF, typ: "sqlite", buffer: true, maxBuf: 1, lite: true, noFlush: true},
 	}
 }
 
